@@ -273,7 +273,7 @@ def main(argv):
     ck.prove()
     rng = ck.rng
     E = OL.edit_catalogue()
-    n = ck.budget(270, 8000)
+    n = ck.budget(270, 2000)          # every scenario contributes whole ontology definitions to one Coq file: 2000 keeps it below 20 MB
     terms, metas, seen = [], [], set()
     defs = {}
 
@@ -376,9 +376,9 @@ def main(argv):
                 metas.append(inp)
         ck.sample({'scenario': kind, 'elements_changed': [k for k in canon(seq[-1]) if canon(seq[-1]).get(k) != canon(seq[0]).get(k)]}, limit=4)
     text = '\n'.join('Definition %s : onto := %s.' % (nm, t) for t, nm in defs.items())
-    shared, out = compile_defs(PID, IMPORTS, text)
+    shared, out = compile_defs(PID, IMPORTS, text, timeout=1500)
     if shared is None:
-        ck.corr_failures.append({'coq_error': out[-2000:]})
+        ck.corr_failures.append({'coq_error': out[-2000:] or 'the shared definitions did not compile within the time limit'})
         bad, errs = [], []
     else:
         agree = ('fun c => match c with (seq, res) => oonto_equiv (match seq with [] => None | a :: rest => '
